@@ -18,8 +18,9 @@ func vpH_C17_backoff() {
 	mult := vpFloat("mult")
 	jit := vpFloat("jitter")
 	n := vpInt("attempt")
-	vpAssume(vpAnd(init >= 0, init <= vpYear))
-	vpAssume(vpAnd(max >= 0, max <= vpYear))
+	const hundredDays = 100 * 24 * time.Hour // below 2^53 ns: the int64 -> float64 conversions are exact
+	vpAssume(vpAnd(init >= 0, init <= hundredDays))
+	vpAssume(vpAnd(max >= 0, max <= hundredDays))
 	vpAssume(vpAnd(mult >= 1, mult <= 1000000))
 	vpAssume(vpAnd(jit >= 0, jit <= 1))
 	vpAssume(n >= 0)
@@ -108,8 +109,11 @@ var vpErrTrans = errors.New("temporary glitch")
 // vpH_C17_T_retry: RetryWithBackoff with every outcome sequence, MaxAttempts 0..4, optional cancellation.
 func vpH_C17_T_retry() {
 	maxAtt := vpChoose("maxAttempts", 5)
-	cancelMode := vpChoose("cancel", 2)
+	cancelMode := vpChoose("cancel", 3)
 	bc := DefaultBackoffConfig()
+	if cancelMode == 2 {
+		bc.InitialBackoff = 0 // no wait at all: the cancellation made inside the operation must still be seen
+	}
 	ctx, cancel := context.WithCancel(vpRootCtx())
 	defer cancel()
 	sc := &vpRetryScript{}
@@ -127,6 +131,10 @@ func vpH_C17_T_retry() {
 		}
 		sc.calls++
 		sc.times = append(sc.times, vpNow())
+		if cancelMode == 2 && sc.calls == 1 {
+			cancelledAt = vpNow()
+			cancel()
+		}
 		if sc.calls > 6 {
 			vpEndPath("retry-invocations") // MaxAttempts==0: unbounded by design; bounded here by 6 invocations
 		}
@@ -166,8 +174,8 @@ func vpH_C17_T_retry() {
 	}
 	// no invocation starts after the cancellation instant (cancellation is checked before each call)
 	if cancelledAt >= 0 {
-		for _, t := range sc.times {
-			vpAssert("C17.retry-stops", t <= cancelledAt)
+		for k, t := range sc.times {
+			vpAssert("C17.retry-stops", t <= cancelledAt && !(cancelMode == 2 && k > 0))
 		}
 	}
 	// waits: gap k -> k+1 lies in the jitter band of the backoff for attempt index k
@@ -296,6 +304,10 @@ func vpH_C17_T_round() {
 	vpQuiesce()
 	base := len(st.issued)
 	t0 := vpNow()
+	if vpChoose("slow-store", 2) == 1 {
+		kv.lat = 30 * time.Millisecond // the wait between attempts is the backoff, whatever the attempt itself took
+		kv.latMin = kv.lat
+	}
 	e.attemptAcquireWithRetry(e.ctx)
 	vpCover("C17.round")
 	var times []int64
@@ -311,7 +323,7 @@ func vpH_C17_T_round() {
 	bc := DefaultBackoffConfig()
 	for k := 0; k+1 < len(times); k++ {
 		b := float64(bc.InitialBackoff) * math.Pow(bc.BackoffMultiplier, float64(k))
-		gap := float64(times[k+1] - times[k])
+		gap := float64(times[k+1]-times[k]) - float64(kv.lat) // from the end of one attempt to the start of the next
 		vpAssert("C17.round-backoff", vpAnd(gap >= b*(1-bc.Jitter)-1, gap <= b*(1+bc.Jitter)+1))
 	}
 	vpAssert("C17.round-follower-after", !e.IsLeader())
